@@ -697,7 +697,7 @@ func runC07(c *Ctx) {
 	R.Rules["E3.roundtrip-layout"] = "for a message type whose Encode builds its body without loops: every place (offset, width, form) where the encoder puts a field is a place where the parser reads that field from, with the inverse form (uN big-endian <-> uN read, raw bytes <-> string/bytes window, NUL-padded <-> trimmed / cut at NUL, UTF82GBK <-> GBK2UTF8 to the end, Time2BCD <-> BCD2Time over 6 bytes); offsets are compared symbolically, under the in-domain assumptions that a length field equals the length of the value it announces and that a value the parser reads with a fixed width has that width (listed per type in the evidence)"
 	R.Rules["E3.roundtrip-list"] = "for a list-carrying type with fixed-size records: the encoder's loop appends one contiguous record per element, the parser's loop reads, in iteration i, every field of the element at first-record offset + stride*i + the field's offset in the record, with the inverse form and width (entailed from the parser's own loop invariants)"
 	R.Rules["E3.parser-reads-written-bytes"] = "every integer field the parser reads at a constant offset lies inside bytes the encoder writes (an encoder that omits a field its parser requires cannot round-trip)"
-	R.Rules["S.codec-helpers"] = "GBK2UTF8 / UTF82GBK return, on every path, what the GBK decoder / encoder produced from the whole argument (no bypass that hands back the input); String2FillingBytes returns exactly `size` bytes on every path"
+	R.Rules["S.codec-helpers"] = "GBK2UTF8 / UTF82GBK return, on every path, what the GBK decoder / encoder produced from the whole argument (no bypass that hands back the input); String2FillingBytes returns exactly `size` bytes on every path; Time2BCD / BCD2Time transcode digits without interpreting them (they call nothing from time / strconv), so the symbolic inverse-pair treatment of BCD time fields holds for fields that are not calendar dates too"
 	var decidedN, notCov int
 	var notCovered []string
 	assume := map[string][]string{}
@@ -810,7 +810,7 @@ func runC07(c *Ctx) {
 	c.c07NarrowArith()
 	R.Require("E3.roundtrip-layout", 24, "")
 	R.Require("E3.parser-reads-written-bytes", 24, "")
-	R.Require("S.codec-helpers", 3, "")
+	R.Require("S.codec-helpers", 5, "")
 	R.Explain = "Round trip is decided structurally for the message types whose encoder is loop-free: the encoder's output layout is reconstructed symbolically (writes, appends, helper calls named by the receiver's fields), the parser's reading of each field likewise, and every writer placement must be a reader placement of the same field with the inverse form; active-safety dialects are analysed one by one. " +
 		"Types with lists or parameter tables (encoder loops, reflection) are listed as not covered; value-level facts (BCD digits, GBK tables, numeric ranges) are not decided. Related structural checks: C08 (0x0200 additions), C16 (0x9212), C03/C10 (parsers never over-read)."
 }
@@ -893,6 +893,68 @@ func (c *Ctx) c07Helpers() {
 	} else {
 		R.Add("S.codec-helpers", "String2FillingBytes", "", report.Violated, "helper not found")
 	}
+	// the BCD time helpers are digit transcoders: the layout comparison keeps them symbolic as inverse forms of each
+	// other, which holds for every 6-byte field only if neither interprets the digits (as a calendar date, as a number)
+	for _, name := range []string{"Time2BCD", "BCD2Time"} {
+		fn := c.P.Func("protocol/utils", name)
+		if fn == nil {
+			R.Add("S.codec-helpers", name, "", report.Violated, "helper not found")
+			continue
+		}
+		ok, d := true, ""
+		seen := map[*ssa.Function]bool{}
+		var walk func(f *ssa.Function, depth int)
+		walk = func(f *ssa.Function, depth int) {
+			if seen[f] || depth > 4 {
+				return
+			}
+			seen[f] = true
+			for _, g := range append([]*ssa.Function{f}, f.AnonFuncs...) {
+				for _, b := range g.Blocks {
+					for _, ins := range b.Instrs {
+						call, isC := ins.(ssa.CallInstruction)
+						if !isC {
+							continue
+						}
+						sc := call.Common().StaticCallee()
+						if sc == nil {
+							continue
+						}
+						if c.P.IsRepoFunc(sc) {
+							walk(sc, depth+1)
+							continue
+						}
+						pk := ""
+						if sc.Pkg != nil {
+							pk = sc.Pkg.Pkg.Path()
+						} else if sc.Signature.Recv() != nil {
+							if n, isN := derefNamedType(sc.Signature.Recv().Type()); isN && n.Obj().Pkg() != nil {
+								pk = n.Obj().Pkg().Path()
+							}
+						}
+						if pk == "time" || pk == "strconv" || pk == "math/big" {
+							ok = false
+							d = fmt.Sprintf("%s calls %s at %s: the digits are interpreted (calendar / number), so BCD fields that are not real dates - the all-zero 'no time condition', month 00 or 20, hour 24 - do not survive Parse followed by Encode", name, sc.String(), c.P.RelPos(ins.Pos()))
+						}
+					}
+				}
+			}
+		}
+		walk(fn, 0)
+		st := report.Discharged
+		if !ok {
+			st = report.Violated
+		}
+		R.Add("S.codec-helpers", name+" / transcodes digits without interpreting them (no time / strconv)", c.P.RelPos(fn.Pos()), st, d)
+	}
+}
+
+func derefNamedType(t types.Type) (*types.Named, bool) {
+	if p, ok := t.Underlying().(*types.Pointer); ok {
+		t = p.Elem()
+	}
+	n, ok := t.(*types.Named)
+	return n, ok
 }
 
 // c07NarrowArith: in parsers, arithmetic carried out in uint8/uint16 must not feed a length comparison or a slice bound
